@@ -11,6 +11,8 @@ R:   every dumped chain (length 2..3 exhaustively, 4..5 from -simulate) x interf
 import json
 import random
 
+from harness import gamma as G
+
 from harness import chain, conv
 from harness.common import NCPU, MachineryError, load_known_findings
 
@@ -23,6 +25,7 @@ def single_hop_findings():
 
 
 def check(run, replay=None):
+    G.OPENERS[0] = G.DOC_OPENERS      # (inherited by the forked replay workers)
     run.rule = ("behaviour = (chain of 2..5 formats, interface of 1..2 parameters in the common representable domain: scalar / "
                 "Optional[scalar] / Literal types, every parameter has a default); distinct = distinct (chain, interface)")
     run.assumptions += ["inside a chain the code formats are used with emit_default_doc=False and ReST docstrings, the "
